@@ -79,10 +79,12 @@ _B = dict(
 _B["VfRIB_q3"] = "pre-state 1 next-hop, 1 group, 1 stale held REPLACE (its key was deleted after it was held); one symbolic operation"
 _B["VfRIB_qx"] = "cross-instance references: a next-hop and a group in EACH of the two instances (the same group id may exist in both), 1 IPv4 entry in either instance with optional explicit group instance; one symbolic IPv4 ADD/REPLACE/DELETE (retargeting a reference between instances / groups)"
 _B["VfRIB_qo"] = "acknowledgement order: 1 next-hop, 2 held IPv4 entries (possibly the same key, different payloads) waiting for a group; one symbolic group ADD/REPLACE; every iteration order of the held-operation map (native replay repeated up to 40 times since Go randomises map order)"
+_B["VfRIB_qEnum"] = "enum-typed payload: pre-state 1 optional next-hop (encapsulate-/decapsulate-header any DEFINED number) + 1 optional group; one symbolic next-hop ADD/REPLACE/DELETE whose two header fields are ANY int32 (all 2^64 pairs, defined or not), any instance name, symbolic index"
+_RE = [("VfRIB_qEnum", _B["VfRIB_qEnum"])]
 _RQ = [(h, _B[h]) for h in ("VfRIB_q1", "VfRIB_q2", "VfRIB_qNoFwd", "VfRIB_qx", "VfRIB_qo")]
 _RT = [(h, _B[h]) for h in ("VfRIB_t1", "VfRIB_t2", "VfRIB_tOrder")]
 _RIBNOTE = "Trusted: go/ssa, gosym, z3, the Go models of candidateRIB/MergeStructInto (validated natively by TestVfModelAgreement on the modelled fields), the reference RIB in harness/rib/vf_ref.go. Payload = key, group reference (+instance), entry metadata, group members/weights/backup/colour, next-hop network-instance; other payload fields are outside (C07)."
-CHECKS["C01"] = dict(runs=_rib(["C01:"], _RQ, _RT), assumptions=["pre-states are reference-closed states built by the canonical history (next-hops, groups, entries, held operations); one or two further symbolic operations"],
+CHECKS["C01"] = dict(runs=_rib(["C01:"], _RQ + _RE, _RT), assumptions=["pre-states are reference-closed states built by the canonical history (next-hops, groups, entries, held operations); one or two further symbolic operations"],
     level_text="Differential bounded symbolic execution of the real RIB (AddEntry/DeleteEntry and everything below) against a reference fold of the acknowledged operations: after every operation the real tables equal the fold, for every value of the symbolic keys/payloads/instance names.", level_note=_RIBNOTE)
 CHECKS["C02"] = dict(runs=_rib(["C02:"], _RQ, _RT), assumptions=["as C01"],
     level_text="Same exploration as C01, checking that every acknowledgement happened in a state where the operation was valid and resolvable, that held operations are kept exactly while unresolvable, for every order of the held-operation walk (thorough).", level_note=_RIBNOTE)
@@ -94,9 +96,9 @@ CHECKS["C03"] = dict(runs=_rib(["C03:"], _RQ, _RT) + [dict(pkg="rib", harness="V
 
 CHECKS["C12"] = dict(
     runs=[dict(pkg="server", harness="VfC12_malformed", reach=["end", "rejected", "delete-of-absent-key"],
-               bounds="one operation sent by the elected primary through doModify/modifyEntry into the real RIB: 25 malformed shapes (nil at every level of every entry kind, zero ids, empty group, zero/body-less members, 11 invalid prefixes, every out-of-range 64-bit label, unknown group instance) x any operation type number; plus valid content under an arbitrary unknown/empty instance name or an undefined operation type")]
-         + _rib(["C12:"], _RQ, _RT),
-    assumptions=["what happens inside the real candidateRIB (protomap/ytypes) is replaced by its model, which returns an error or a value and never panics; a concrete probe shows the real pipeline panics for undefined enum numbers such as encapsulate_header=99 - outside this check (DESIGN.md C12)",
+               bounds="one operation sent by the elected primary through doModify/modifyEntry into the real RIB: 30 malformed shapes (nil at every level of every entry kind, zero ids, empty group, zero/body-less members, 11 invalid prefixes, every out-of-range 64-bit label, unknown group instance, every undefined enum number in the encapsulate-/decapsulate-header fields of next-hops and IPv4/IPv6 entries) x any operation type number; plus valid content under an arbitrary unknown/empty instance name or an undefined operation type")]
+         + _rib(["C12:"], _RQ + _RE, _RT),
+    assumptions=["what happens inside the real candidateRIB (protomap/ytypes) is replaced by its model; the model's reaction to an enum number the type does not define (panic or error) is a calibration fact measured natively on the current tree before every run (TestVfModelCalibrate) and model and real code are compared on 2 500 / 20 000 random payloads incl. undefined numbers (TestVfModelAgreement); a panic path found through the model is reported only after the real code panicked in the native replay",
                  "nil elements inside repeated fields are not wire-representable and are excluded"],
     level_text="Bounded symbolic execution of the operation path with malformed content at every level: no path panics, every malformed operation is answered FAILED or by a clean RPC error, and a structural before/after comparison of tables, counters and held set shows no effect.",
     level_note=_RIBNOTE)
